@@ -263,6 +263,15 @@ def run(ctx):
         wc = [a for a in fx.find(domain="comb", target="word_clr") if a.state == (info.id, t.src)]
         ok = any(B.entails(G, a.eff()) for a in wc)
         ctx.ob("A3", WB, "Cache", f"word counter cleared when {t.src} enters REFILL", ok, "" if ok else "word not cleared", t.line)
+    # ... and only then: while a dirty line is written back the tag still holds its slave address; replacing it before the last
+    # word went out sends the remaining words to the new line's address
+    for a in [a for a in fx.find(domain="comb", target="tag_port.we") if a.v == "1" and a.state and a.state[1] not in ("TEST_HIT", "IDLE")]:
+        outs = [t.eff() for t in fx.trans if t.src == a.state[1] and t.dst == "REFILL"]
+        ok = bool(outs) and B.entails(a.eff(), B.Or(*outs) if len(outs) > 1 else outs[0])
+        ctx.ob("A3", WB, "Cache", f"tag replaced in {a.state[1]} only on the step that leaves for REFILL", ok,
+               "" if ok else f"tag_port.we under {B.show(a.eff())} in {a.state[1]}: fires before the write-back of the line is complete "
+                             f"(e.g. {B.counterexample(a.eff(), B.Or(*outs) if len(outs) > 1 else outs[0]) if outs else '-'}): the rest of the dirty "
+                             f"line is written to the new line's address", a.line)
     ev = [t for t in fx.trans if t.src == "TEST_HIT" and t.dst == "EVICT"]
     ok = len(ev) == 1 and q.IMP(ev[0], B.from_expr("tag_do.dirty & ~(tag_do.tag == adr_tag)"))
     ctx.ob("A3", WB, "Cache", "evict only dirty lines on a miss", ok, "" if ok else f"{[t.gtext() for t in ev]}")
